@@ -51,70 +51,106 @@ structure Inv (s : St) : Prop where
 theorem inv_init : Inv {} := by
   constructor <;> intros <;> simp_all [Map.empty]
 
-theorem inv_accStart (s : St) (a : Acc) (id : Id) (h : Inv s) : Inv (step s (.accStart a id)) := by
-  simp only [step]
-  split
-  · exact h
-  · rename_i hn
-    have hn' : s.apc a = none := by
-      cases hx : s.apc a with
-      | none => rfl
-      | some v => simp [Map.has, hx] at hn
-    have hid : s.accId a = none := by
-      cases hx : s.accId a with
-      | none => rfl
-      | some v => obtain ⟨pc, hpc⟩ := h.a1 a v hx; rw [hn'] at hpc; cases hpc
-    constructor <;> simp only [Map.set] <;> intros <;> grind [Inv, holdsCert, holdsChan, got]
-
-
 theorem has_false {α : Type} (m : Map α) (k : Nat) (h : ¬ m.has k = true) : m k = none := by
   cases hx : m k with
   | none => rfl
   | some v => simp [Map.has, hx] at h
 
-theorem has_true {α : Type} (m : Map α) (k : Nat) (h : m.has k = true) : ∃ v, m k = some v := by
-  cases hx : m k with
-  | none => simp [Map.has, hx] at h
-  | some v => exact ⟨v, rfl⟩
-
 macro "inv_auto" : tactic =>
-  `(tactic| (constructor <;> simp only [Map.set, Map.del] <;> intros <;> grind [Inv, holdsCert, holdsChan, got]))
+  `(tactic| (constructor <;> simp only [Map.set, Map.del] <;> intros <;> grind [holdsCert, holdsChan, got]))
+
+theorem inv_accStart (s : St) (a : Acc) (id : Id) (h : Inv s) : Inv (step s (.accStart a id)) := by
+  simp only [step]
+  split
+  · exact h
+  · rename_i hn
+    have hn' : s.apc a = none := has_false _ _ hn
+    have hid : s.accId a = none := by
+      cases hx : s.accId a with
+      | none => rfl
+      | some v => obtain ⟨pc, hpc⟩ := h.a1 a v hx; rw [hn'] at hpc; cases hpc
+    obtain ⟨c1, c2, h1, h2, b1, s1, s2, s3, r1, a1⟩ := h
+    inv_auto
+
+/-! one lemma per branch of `accStep` (each keeps the elaboration small) -/
+
+theorem inv_regCert_dup (s : St) (a : Acc) (h : Inv s) (hpc : s.apc a = some .start) :
+    Inv { s with apc := s.apc.set a .failed } := by
+  obtain ⟨c1, c2, h1, h2, b1, s1, s2, s3, r1, a1⟩ := h
+  inv_auto
+
+theorem inv_regCert_ok (s : St) (a : Acc) (id : Id) (h : Inv s) (hpc : s.apc a = some .start)
+    (hid : s.accId a = some id) (hc : s.certs id = none) :
+    Inv { s with certs := s.certs.set id a, apc := s.apc.set a .regChan } := by
+  obtain ⟨c1, c2, h1, h2, b1, s1, s2, s3, r1, a1⟩ := h
+  inv_auto
+
+theorem inv_regChan_dup (s : St) (a : Acc) (h : Inv s) (hpc : s.apc a = some .regChan) :
+    Inv { s with apc := s.apc.set a .rmCertErr } := by
+  obtain ⟨c1, c2, h1, h2, b1, s1, s2, s3, r1, a1⟩ := h
+  inv_auto
+
+theorem inv_regChan_ok (s : St) (a : Acc) (id : Id) (h : Inv s) (hpc : s.apc a = some .regChan)
+    (hid : s.accId a = some id) (hc : s.chans id = none) :
+    Inv { s with chans := s.chans.set id a, apc := s.apc.set a .waiting } := by
+  obtain ⟨c1, c2, h1, h2, b1, s1, s2, s3, r1, a1⟩ := h
+  inv_auto
+
+theorem inv_recv (s : St) (a : Acc) (c : Hs) (h : Inv s) (hpc : s.apc a = some .waiting)
+    (hb : s.buf a = some c) :
+    Inv { s with buf := s.buf.del a, apc := s.apc.set a (.rmChan (some c)) } := by
+  obtain ⟨c1, c2, h1, h2, b1, s1, s2, s3, r1, a1⟩ := h
+  inv_auto
+
+theorem inv_rmChan (s : St) (a : Acc) (id : Id) (r : Option Hs) (h : Inv s) (hpc : s.apc a = some (.rmChan r))
+    (hid : s.accId a = some id) :
+    Inv { s with chans := s.chans.del id, apc := s.apc.set a (.rmCert r) } := by
+  obtain ⟨c1, c2, h1, h2, b1, s1, s2, s3, r1, a1⟩ := h
+  inv_auto
+
+theorem inv_rmCert (s : St) (a : Acc) (id : Id) (r : Option Hs) (h : Inv s) (hpc : s.apc a = some (.rmCert r))
+    (hid : s.accId a = some id) :
+    Inv { s with certs := s.certs.del id, apc := s.apc.set a (.done r) } := by
+  obtain ⟨c1, c2, h1, h2, b1, s1, s2, s3, r1, a1⟩ := h
+  inv_auto
+
+theorem inv_rmCertErr (s : St) (a : Acc) (id : Id) (h : Inv s) (hpc : s.apc a = some .rmCertErr)
+    (hid : s.accId a = some id) :
+    Inv { s with certs := s.certs.del id, apc := s.apc.set a .failed } := by
+  obtain ⟨c1, c2, h1, h2, b1, s1, s2, s3, r1, a1⟩ := h
+  inv_auto
 
 theorem inv_accStep (s : St) (a : Acc) (h : Inv s) : Inv (accStep s a) := by
   unfold accStep
   split
-  · -- registerCert
-    rename_i id hpc hid
+  · rename_i id hpc hid
     split
-    · inv_auto
+    · exact inv_regCert_dup s a h hpc
     · rename_i hn
-      have hc := has_false _ _ hn
-      inv_auto
-  · -- registerChannel
-    rename_i id hpc hid
+      exact inv_regCert_ok s a id h hpc hid (has_false _ _ hn)
+  · rename_i id hpc hid
     split
-    · inv_auto
+    · exact inv_regChan_dup s a h hpc
     · rename_i hn
-      have hc := has_false _ _ hn
-      inv_auto
-  · -- select
-    rename_i id hpc hid
+      exact inv_regChan_ok s a id h hpc hid (has_false _ _ hn)
+  · rename_i id hpc hid
     split
     · rename_i c hb
-      inv_auto
+      exact inv_recv s a c h hpc hb
     · exact h
   · rename_i r id hpc hid
-    inv_auto
+    exact inv_rmChan s a id r h hpc hid
   · rename_i r id hpc hid
-    inv_auto
+    exact inv_rmCert s a id r h hpc hid
   · rename_i id hpc hid
-    inv_auto
+    exact inv_rmCertErr s a id h hpc hid
   · exact h
 
 theorem inv_accCancel (s : St) (a : Acc) (h : Inv s) : Inv (step s (.accCancel a)) := by
   simp only [step]
   split
   · rename_i hpc
+    obtain ⟨c1, c2, h1, h2, b1, s1, s2, s3, r1, a1⟩ := h
     inv_auto
   · exact h
 
@@ -124,37 +160,61 @@ theorem inv_hsStart (s : St) (x : Hs) (rnd cert : Id) (h : Inv s) : Inv (step s 
   · exact h
   · rename_i hn
     have hc := has_false _ _ hn
+    obtain ⟨c1, c2, h1, h2, b1, s1, s2, s3, r1, a1⟩ := h
     inv_auto
+
+theorem inv_hs_set (s : St) (x : Hs) (rnd cert : Id) (pc pc' : HPc) (h : Inv s)
+    (hx : s.hs x = some ⟨rnd, cert, pc⟩)
+    (hpc : ∀ ch, pc ≠ .delivered ch)
+    (h1' : ∀ ch, pc' = .send ch → cert = rnd ∧ s.accId ch = some rnd)
+    (h2' : ∀ ch, pc' ≠ .delivered ch)
+    (h3' : pc' = .route → cert = rnd) :
+    Inv { s with hs := s.hs.set x ⟨rnd, cert, pc'⟩ } := by
+  obtain ⟨c1, c2, h1, h2, b1, s1, s2, s3, r1, a1⟩ := h
+  inv_auto
+
+theorem inv_hs_deliver (s : St) (x : Hs) (rnd cert : Id) (ch : Acc) (h : Inv s)
+    (hx : s.hs x = some ⟨rnd, cert, .send ch⟩) (hb : s.buf ch = none) :
+    Inv { s with buf := s.buf.set ch x, hs := s.hs.set x ⟨rnd, cert, .delivered ch⟩ } := by
+  obtain ⟨c1, c2, h1, h2, b1, s1, s2, s3, r1, a1⟩ := h
+  inv_auto
 
 theorem inv_hsStep (s : St) (x : Hs) (h : Inv s) : Inv (hsStep s x) := by
   unfold hsStep
   split
   · rename_i rnd cert hx
-    inv_auto
+    exact inv_hs_set s x rnd cert _ _ h hx (by intro ch h; cases h) (by intro ch h; cases h)
+      (by intro ch h; cases h) (by intro h; cases h)
   · rename_i rnd cert shown hx
     split
     · rename_i hc
       simp only [Bool.and_eq_true, beq_iff_eq] at hc
-      inv_auto
-    · inv_auto
+      exact inv_hs_set s x rnd cert _ _ h hx (by intro ch h; cases h) (by intro ch h; cases h)
+        (by intro ch h; cases h) (fun _ => hc.1.2)
+    · exact inv_hs_set s x rnd cert _ _ h hx (by intro ch h; cases h) (by intro ch h; cases h)
+        (by intro ch h; cases h) (by intro h; cases h)
   · rename_i rnd cert hx
     split
     · rename_i ch hch
-      inv_auto
-    · inv_auto
+      have hcr := h.s3 x rnd cert hx
+      have hacc := (h.h1 rnd ch hch).1
+      exact inv_hs_set s x rnd cert _ _ h hx (by intro ch h; cases h)
+        (by intro ch' h'; cases h'; exact ⟨hcr, hacc⟩) (by intro ch h; cases h) (by intro h; cases h)
+    · exact inv_hs_set s x rnd cert _ _ h hx (by intro ch h; cases h) (by intro ch h; cases h)
+        (by intro ch h; cases h) (by intro h; cases h)
   · rename_i rnd cert ch hx
     split
     · exact h
     · rename_i hn
-      have hc := has_false _ _ hn
-      inv_auto
+      exact inv_hs_deliver s x rnd cert ch h hx (has_false _ _ hn)
   · exact h
 
 theorem inv_hsTimeout (s : St) (x : Hs) (h : Inv s) : Inv (step s (.hsTimeout x)) := by
   simp only [step]
   split
   · rename_i rnd cert ch hx
-    inv_auto
+    exact inv_hs_set s x rnd cert _ _ h hx (by intro ch h; cases h) (by intro ch h; cases h)
+      (by intro ch h; cases h) (by intro h; cases h)
   · exact h
 
 theorem inv_step (s : St) (op : Op) (h : Inv s) : Inv (step s op) := by
